@@ -44,6 +44,20 @@ def _alarm(signum, frame):
     raise _Timeout()
 
 
+def _arm():
+    """Per-run limit in CPU seconds of this process (so a loaded machine does not turn slow runs into harness errors), with a wall-clock
+    backstop for a run that blocks without consuming CPU."""
+    signal.signal(signal.SIGPROF, _alarm)
+    signal.signal(signal.SIGALRM, _alarm)
+    signal.setitimer(signal.ITIMER_PROF, RUN_TIMEOUT_S)
+    signal.alarm(RUN_TIMEOUT_S * 20)
+
+
+def _disarm():
+    signal.setitimer(signal.ITIMER_PROF, 0)
+    signal.alarm(0)
+
+
 def execute(mod, scn):
     """Run one scenario (pure function of scenario + repo code)."""
     t0 = time.time()
@@ -56,8 +70,7 @@ def execute(mod, scn):
 def _task(prop, verif_seed, index, tier):
     mod = load_prop(prop)
     seed = run_seed(verif_seed, prop, index)
-    signal.signal(signal.SIGALRM, _alarm)
-    signal.alarm(RUN_TIMEOUT_S)
+    _arm()
     try:
         rng = random.Random(seed)
         scn = mod.gen(rng, tier, index)
@@ -77,11 +90,11 @@ def _task(prop, verif_seed, index, tier):
             out["scenario"] = scn
         return out
     except _Timeout:
-        return {"index": index, "seed": seed, "harness_error": "run exceeded %ds wall" % RUN_TIMEOUT_S}
+        return {"index": index, "seed": seed, "harness_error": "run exceeded %ds CPU" % RUN_TIMEOUT_S}
     except Exception:
         return {"index": index, "seed": seed, "harness_error": traceback.format_exc()}
     finally:
-        signal.alarm(0)
+        _disarm()
 
 
 # ---- shrinking -------------------------------------------------------------------------------------
@@ -141,14 +154,13 @@ def shrink(mod, scn, oracle, budget_runs=250, budget_s=150):
             return False
         runs[0] += 1
         try:
-            signal.signal(signal.SIGALRM, _alarm)
-            signal.alarm(RUN_TIMEOUT_S)
+            _arm()
             shim.reset_tracer()
             r = mod.run(copy.deepcopy(s))
         except Exception:
             return False
         finally:
-            signal.alarm(0)
+            _disarm()
         return any(v["oracle"] == oracle for v in r.get("violations", []))
 
     best = copy.deepcopy(scn)
@@ -367,7 +379,7 @@ def main(argv=None):
             futs = [ex.submit(_task, a.prop, a.seed, i, tier) for i in range(a.start, a.start + nruns)]
             for fu in futs:
                 try:
-                    r = fu.result(timeout=RUN_TIMEOUT_S * 4 + 600)
+                    r = fu.result(timeout=RUN_TIMEOUT_S * 40 + 600)
                 except Exception as e:   # worker death, pool broken, timeout
                     harness_errors.append("worker failure: %r" % (e,))
                     break
